@@ -231,8 +231,8 @@ class Components:
 
     def registerUtility(self, component=None, provided=None, name='',
                         info='', event=True, factory=None):
-        if factory:
-            if component:
+        if factory is not None:
+            if component is not None:
                 raise TypeError("Can't specify factory and component.")
             component = factory()
 
@@ -260,8 +260,8 @@ class Components:
 
     def unregisterUtility(self, component=None, provided=None, name='',
                           factory=None):
-        if factory:
-            if component:
+        if factory is not None:
+            if component is not None:
                 raise TypeError("Can't specify factory and component.")
             component = factory()
 
